@@ -52,6 +52,11 @@ def enumerate_states(tier):
                             if s["key"] not in seen:
                                 seen.add(s["key"])
                                 states.append(s)
+    # macro_rules-stamped functions: parameters spelled identically but coming from different hygiene contexts
+    for deps in DEPS:
+        for asy in (False, True):
+            for feature in (False, True):
+                states.append(make_state("iii", deps, asy, "mac", False, feature))
     # every non-root state has exactly one incoming 'append a parameter' edge inside its configuration
     transitions = sum(1 for s in states if s["params"])
     return states, transitions, dict(param_alphabet=len(PARAMS), arity_full=full_arity, arity_base=base_arity)
@@ -78,6 +83,9 @@ def render_fn(s, j, vis):
     elif deps == "concrete":
         deps_param = "deps: &App"
     plist = ([deps_param] if deps_param else []) + [gen.param_decl(k, i + 1) for i, k in enumerate(params)]
+    if s["container"] == "mac":
+        # `$p` is spelled `x` at the call site, the second `x` belongs to the macro body: distinct bindings
+        plist = ([deps_param] if deps_param else []) + ["$p: i64", "x: i64", "y: i64"]
     if deps in ("impl", "gen_inline", "gen_where"):
         head = ["rt::addr(deps)", "rt::tn(deps)", "deps.tok()"]
     elif deps in ("val_gen", "val_impl"):
@@ -92,6 +100,8 @@ def render_fn(s, j, vis):
         shows += gen.param_show_exprs(k, i + 1)
         if k == "m":
             muts.append("*x%d += 100;" % (i + 1))
+    if s["container"] == "mac":
+        shows = ["$p", "x", "y"]
     body = []
     if s["asy"]:
         body.append("rt::yield_once().await;")
@@ -127,6 +137,13 @@ def render(s):
     if s["container"] == "fn":
         L.append("    " + attr_for(s))
         L.append("    " + render_fn(s, 0, "pub "))
+        path = ""
+    elif s["container"] == "mac":
+        L.append("    macro_rules! stamp { ($p:ident) => {")
+        L.append("    " + attr_for(s))
+        L.append("    " + render_fn(s, 0, "pub "))
+        L.append("    } }")
+        L.append("    stamp!(x);")
         path = ""
     else:
         L.append("    " + attr_for(s))
